@@ -36,6 +36,10 @@ def one(sid, rnd, steps):
                 s.wait(t3)
         if how == "error":
             s.call("rt", "error", id="current", size=200, seed=rnd.randrange(1, 10 ** 6), errType="Function.E")
+        elif how == "stream":
+            # the runtime declares a streamed response: the emulator buffers it all the same, the limit is the same
+            s.call("rt", "response", id="current", size=resp, seed=rnd.randrange(1, 10 ** 6),
+                   headers={"Lambda-Runtime-Function-Response-Mode": "streaming"})
         else:
             s.call("rt", "response", id="current", size=resp, seed=rnd.randrange(1, 10 ** 6))
         tag = s.poll("rt")
@@ -54,6 +58,9 @@ def scenarios(ctx):
         for pre in prefixes if not ctx.quick else [prefixes[0], prefixes[2]]:
             n += 1
             out.append(one("c14-%03d" % n, rnd, pre + [(7, size, "ok"), (3, 11, "ok")]))
+    for size in ([L, L + 1, L + 4096] if ctx.quick else [0, 1, L - 1, L, L + 1, L + 2, L + 4096, L + 1024 * 1024]):
+        n += 1
+        out.append(one("c14-%03d" % n, rnd, [(6, size, "stream"), (3, 11, "ok"), (4, 12, "stream")]))
     for size in (REQ if not ctx.quick else [L, L + 1]):
         for pre in prefixes if not ctx.quick else [prefixes[0]]:
             n += 1
